@@ -119,7 +119,7 @@ def handle (op : String) (args : List String) : Option Ans :=
     match l.toNat? with
     | some mlen =>
       let gs := if dir == "push" then Gen.Stream.push_guards mlen (mlen + 17) else Gen.Stream.pull_guards mlen (mlen + 17)
-      if dir != "push" && dir != "pull" then none
+      if dir != "push" && dir != "pull" && dir != "pullforged" then none
       else some (if gs.any id then "err" else "n/a", "n/a")
     | none => none
   -- `stream_init_pull_view <key> <header>`: `DryocStream::init_pull` with `Vec<u8>` / `&[u8]` containers
